@@ -68,6 +68,14 @@ Theorem history_independence_witnesses :
 Proof. exact (conj leak_tl_block leak_tl_user_output). Qed.
 Print Assumptions history_independence_witnesses.
 
+(* GENERATED branch table of PatternMatches::clear() (`if self.capacity > 10000
+   { drop everything } else { clear every list }`): on every branch every match
+   list is emptied - a branch that keeps a list with its content breaks this
+   and history_independence *)
+Theorem pattern_matches_clear_empties_every_list : forall st, pm_clear st (CF tracker_pattern_matches) = 0.
+Proof. exact StateProofs.pm_clear_empties_lists. Qed.
+Print Assumptions pattern_matches_clear_empties_every_list.
+
 (* GENERATED fact used by the theorems: every module main function
    re-initialises every per-thread cache of its module *)
 Theorem module_mains_clear_their_caches : forall t, tl_cleared_by_main t = true.
